@@ -258,6 +258,59 @@ def run(ctx):
                      '(errors at the end of the input are at len(s))', 0)
     error_text_indexing(ctx, 'R05k', repo)
 
+    # ---- R05l: the argument of a specials token is a specification object, not text
+    ctx.rule('R05l', 'where a parser concatenates the text of tokens (`... += tok.arg`), the token is not a specials token '
+                     'on that path (its .arg is a specification object; the text is .arg.specials_chars): no TypeError '
+                     'instead of a parse error', 1)
+    n_ta = 0
+    for mod_ in sorted(repo.modules.values(), key=lambda m_: m_.name):
+        if not mod_.name.startswith('pylatexenc.latexnodes.parsers'):
+            continue
+        for q_, f_ in sorted(mod_.functions.items()):
+            def _is_text_use(n_):
+                if not (isinstance(n_, ast.Attribute) and n_.attr == 'arg' and isinstance(n_.value, ast.Name)
+                        and isinstance(n_.ctx, ast.Load)):
+                    return False
+                par_ = getattr(n_, '_parent', None)
+                return (isinstance(par_, ast.AugAssign) and isinstance(par_.op, ast.Add) and par_.value is n_) or \
+                    (isinstance(par_, ast.BinOp) and isinstance(par_.op, ast.Add))
+            if not any(_is_text_use(x_) for x_ in iter_own(f_)):
+                continue
+            toks_ = {x_.value.id for x_ in iter_own(f_) if _is_text_use(x_)}
+            try:
+                tcs = symex.Walker(is_sink=_is_text_use, sink_types=(ast.Attribute,),
+                                   track_attrs=tuple(t_ + '.arg' for t_ in toks_) + tuple(t_ + '.tok' for t_ in toks_)).run(f_)
+            except symex.TooManyPaths:
+                ctx.unknown('R05l', mod_, f_, 'too many paths', construct=q_ + ': token text')
+                continue
+            n_ta += 1
+            bad_ = None
+            for cs in tcs:
+                v_ = cs.sub
+                tk_ = cs.node.value.id
+                if isinstance(v_, ast.Attribute) and v_.attr == 'arg' and isinstance(v_.value, ast.Name):
+                    facts_ = symex.facts_of(cs.conds)
+                    if (("%s.tok == 'specials'" % tk_, True) in facts_ or
+                            ("%s.tok == 'specials'" % v_.value.id, True) in facts_) and bad_ is None:
+                        bad_ = cs
+            ctx.decide('R05l', bad_ is None, mod_, bad_.node if bad_ else f_,
+                       '%s: token text is concatenated only for non-specials tokens or through .specials_chars' % q_,
+                       '%s concatenates %s.arg as text on the path [%s], where the token is a specials token: its .arg is '
+                       'the specification object, so the concatenation raises TypeError (a paragraph break or `~` after a '
+                       'macro with an optional star) instead of the input being parsed or rejected with a parse error'
+                       % (q_, bad_.node.value.id if bad_ else '', ' & '.join(bad_.cond_src())[-140:] if bad_ else ''),
+                       construct=q_ + ': token text')
+    if n_ta == 0:
+        ctx.unknown('R05l', repo.mod('pylatexenc.latexnodes.parsers._optionals'), None, 'no token-text concatenation found',
+                    construct='token text')
+    # ---- R05m (C01 R01m): verbatim reading puts the stopping character back when the stop condition says so
+    ctx.rule('R05m', 'verbatim reading: the character that ends a verbatim environment body is put back exactly when the '
+                     'stop condition asks for it, so the construct that follows (an unbalanced brace, say) is still seen '
+                     '(C01 R01m)', 1)
+    from . import c01 as _c01
+    from .. import core as _core
+    _core.run_proxied(ctx, _c01, 'R05m', ('R01m',))
+
     return 'other', (
         'Exception-escape analysis (least fixpoint over the resolved call graph, strict '
         'configuration) of LatexWalker.parse_content over every parser class: each escaping '
